@@ -2,7 +2,8 @@ PROP = dict(
     modules=["Shangrla.Props.C09", "Shangrla.Props.RiskLimit", "Shangrla.Props.RiskLimitStyle",
              "Shangrla.Props.RiskLimitPlurality", "Shangrla.Props.RiskLimitComparison", "Shangrla.Props.RiskLimitIID", "Shangrla.Props.RiskLimitIRVComparison",
              "Shangrla.Props.RiskLimitIRV", "Shangrla.Props.RiskLimitComparisonFull",
-             "Shangrla.Props.RiskLimitComparisonOutcome"],
+             "Shangrla.Props.RiskLimitComparisonOutcome", "Shangrla.Props.RiskLimitIRVComparisonFull",
+             "Shangrla.Props.RiskLimitOutcome", "Shangrla.Props.RiskLimitConsistentSampling"],
     theorems=["Shangrla.C09.pvalues_are_tests", "Shangrla.C09.pvalues_are_tests_pos", "Shangrla.C09.contest_max",
               "Shangrla.C09.audit_max", "Shangrla.C09.audit_max_nan_iff", "Shangrla.C09.audit_max_largest",
               "Shangrla.C09.proved_sticky", "Shangrla.C09.proved_of_le", "Shangrla.C09.dicts_mirror",
@@ -49,12 +50,62 @@ PROP = dict(
               "Shangrla.RiskLimit.plurality_comparison_risk_limit", "Shangrla.RiskLimit.supermajority_comparison_risk_limit",
               "Shangrla.RiskLimit.plurality_comparison_risk_limit_zip",
               "Shangrla.RiskLimit.supermajority_comparison_risk_limit_zip",
-              "Shangrla.RiskLimit.example_comparison_outcome_exact"],
+              "Shangrla.RiskLimit.example_comparison_outcome_exact",
+              # with C04 / C14 on top of it: a wrong reported IRV winner on the manual records => risk limit of the
+              # comparison / ONEAudit audit of RAIRE's assertions on the literal model (also registered under C14)
+              "Shangrla.RiskLimit.irv_comparison_null_iff", "Shangrla.RiskLimit.irv_comparison_false_assertion",
+              "Shangrla.RiskLimit.irv_comparison_full_risk_limit",
+              "Shangrla.RiskLimit.irv_comparison_full_wrong_winner_risk_limit",
+              "Shangrla.RiskLimit.irv_comparison_full_wrong_winner_risk_limit_found",
+              "Shangrla.RiskLimit.raire_comparison_full_wrong_winner_risk_limit",
+              "Shangrla.RiskLimit.example_irv_comparison_full_exact",
+              # the CONTEST-level statements (also registered under C02): the reported outcome of a plurality / approval
+              # (k winners) or super-majority contest is wrong => the audit of ALL contests is ever reported complete with
+              # probability at most that contest's risk limit, given an assertion for EVERY (winner, loser) pair; for a
+              # state of several contests: any contest wrong => at most the largest risk limit
+              "Shangrla.RiskLimit.pluralityOutcomeWrong_iff_pair", "Shangrla.RiskLimit.pluralityOutcomeWrong_iff_means",
+              "Shangrla.RiskLimit.supermajorityOutcomeWrong_iff_mean",
+              "Shangrla.RiskLimit.plurality_outcome_polling_risk_limit",
+              "Shangrla.RiskLimit.supermajority_outcome_polling_risk_limit",
+              "Shangrla.RiskLimit.foundBallots_listed", "Shangrla.RiskLimit.lostCount_listed",
+              "Shangrla.RiskLimit.marks_foundOf", "Shangrla.RiskLimit.valid_foundOf", "Shangrla.RiskLimit.wvalid_foundOf",
+              "Shangrla.RiskLimit.pluralityUnconfirmed_of_wrong", "Shangrla.RiskLimit.supermajorityUnconfirmed_of_wrong",
+              "Shangrla.RiskLimit.plurality_outcome_comparison_risk_limit",
+              "Shangrla.RiskLimit.plurality_outcome_comparison_risk_limit_found",
+              "Shangrla.RiskLimit.supermajority_outcome_comparison_risk_limit",
+              "Shangrla.RiskLimit.supermajority_outcome_comparison_risk_limit_found",
+              "Shangrla.RiskLimit.wrong_outcome_polling_risk_limit", "Shangrla.RiskLimit.wrong_outcome_comparison_risk_limit",
+              "Shangrla.RiskLimit.riskLimit_le_max",
+              "Shangrla.RiskLimit.audit_polling_risk_limit", "Shangrla.RiskLimit.audit_comparison_risk_limit",
+              # contests audited by different methods (polling / comparison, own style flag) in one audit
+              "Shangrla.RiskLimit.polling_cards_risk_limit", "Shangrla.RiskLimit.wrong_outcome_risk_limit",
+              "Shangrla.RiskLimit.audit_outcome_risk_limit",
+              "Shangrla.RiskLimit.pair_name_clash", "Shangrla.RiskLimit.example_k2_wrong", "Shangrla.RiskLimit.example_k2_hall",
+              "Shangrla.RiskLimit.example_k2_hall_comparison",
+              "Shangrla.RiskLimit.example_outcome_polling_exact", "Shangrla.RiskLimit.example_outcome_comparison_exact",
+              # with C07 / C10: the multi-round audit with consistent sampling (sample numbers = a uniformly random
+              # order, adaptive per-contest sizes, literal Rounds.step) — fraction of the n! orders on which it is ever
+              # reported complete <= risk limit; hitG as a count over the n! orders (also registered under C07)
+              "Shangrla.RiskLimit.count_ordersF", "Shangrla.RiskLimit.hitG_eq_count", "Shangrla.RiskLimit.orders_length",
+              "Shangrla.RiskLimit.mem_orders_iff", "Shangrla.RiskLimit.orders_nodup",
+              "Shangrla.RiskLimit.sortedPairs_cvrList", "Shangrla.RiskLimit.cs_contest_data_prefix",
+              "Shangrla.RiskLimit.step_closed", "Shangrla.RiskLimit.roundComplete_forces",
+              "Shangrla.RiskLimit.csLoop_prefix", "Shangrla.RiskLimit.csAudit_ever",
+              "Shangrla.RiskLimit.csAudit_fraction_le_hitG", "Shangrla.RiskLimit.pLe_style_run_bound",
+              "Shangrla.RiskLimit.consistent_sampling_audit_risk_limit",
+              "Shangrla.RiskLimit.csLoop_eq_spec", "Shangrla.RiskLimit.csAudit_eq_spec",
+              "Shangrla.RiskLimit.example_cs_count", "Shangrla.RiskLimit.example_cs_count_round1",
+              "Shangrla.RiskLimit.example_cs_exact"],
     groups={"status": (1200, 12000), "auditrisk": (60, 600)},
     design_ref="DESIGN.md section 5, C09",
     assumptions=["the statistical test and the data extraction (asn.test.test, Assertion.mvrs_to_data) are parameters of "
                  "the model: every theorem holds for every function from (contest, assertion) to (p, history); "
                  "they are modelled and verified by C01/C05/C06/C11/C12",
                  "a contest without assertions has measured risk 0 and counts as complete iff 0 <= its risk limit; "
-                 "complete_iff states this conjunct explicitly, it is vacuous for every limit check_audit_parameters accepts"],
+                 "complete_iff states this conjunct explicitly, it is vacuous for every limit check_audit_parameters accepts",
+                 "contest-level theorems (RiskLimitOutcome.lean: plurality_/supermajority_outcome_*_risk_limit, "
+                 "audit_polling_/audit_comparison_risk_limit): the contest's assertion list contains an assertion for EVERY "
+                 "(reported winner, reported loser) pair, each set up as make_plurality_assertions sets it up (hypothesis "
+                 "hall; see C02).  The constructor loop is not modelled; the hypothesis is tested on the real constructor by "
+                 "the oracle auditrisk.oracle_outcome and fails when two pairs get the same dict key (known finding F30)"],
 )
